@@ -83,6 +83,8 @@ func checkC11(r *core.Run, p *core.Program) {
 	r.Rule("C11.value-receiver", "no method with a value receiver stores to a field of its receiver anywhere in the module (the update is lost when the method returns; in the validator it loses the undelivered tail of a split UTF-8 character between data events).")
 	r.Rule("C11.stringlike", "every switch over the array type in the full-array and chunked validation entry points routes each string-like type (string, resource ID, remote reference, custom text) to a branch that reaches a UTF-8 validity check, and the media type argument of the media events reaches one too.")
 	r.Rule("C11.chunk-accounting", "each chunk-data handler first adds the delivered byte count (rejecting when it exceeds the declared chunk length), streams string data through the split-character buffer and validates it, and ends the chunk exactly when the declared length is reached; a string chunk may not end inside a character; an array ends only on a chunk that is not followed by more; the Context primitives involved have the required guard shapes.")
+	r.Rule("C11.stream-alias", "a slice that Context.StreamStringData returns does not share its backing array with a buffer of the context that the same call writes afterwards: when a result is (a reslice of) a slice field of the context, no later statement of the function copies into, or re-slices and fills, that field or the array field it is a view of (otherwise the bytes of the character completed from the previous data event are overwritten by the start of the next split character before the caller has validated them, and the verdict depends on how the data was split).")
+	checkC11StreamAlias(r, p)
 	r.Rule("C11.rune-index", "chars.IndexOfLastRuneStart never returns a negative index (a negative index makes the split-character buffer slice out of range).")
 	r.NotDecide("UTF-8 validity decisions themselves (unicode/utf8); equality of verdicts over all possible splits (the structural conditions above are necessary for it)")
 	a := newAnalysis(p)
@@ -289,4 +291,113 @@ func (a *analysis) isASCIIClassValidator(f *types.Func) bool {
 		return true
 	})
 	return indexes && rejects && loops
+}
+
+func checkC11StreamAlias(r *core.Run, p *core.Program) {
+	f := findFn(p, "rules", "Context.StreamStringData")
+	if f == nil {
+		r.Undecided("C11.stream-alias", "rules.Context.StreamStringData")
+		return
+	}
+	pkg := p.Pkg("rules")
+	info := pkg.TypesInfo
+	// alias groups of Context fields: F = G[a:b] anywhere in the package puts F and G in one group
+	group := map[*types.Var]*types.Var{}
+	var find func(v *types.Var) *types.Var
+	find = func(v *types.Var) *types.Var {
+		if g, ok := group[v]; ok && g != v {
+			root := find(g)
+			group[v] = root
+			return root
+		}
+		return v
+	}
+	for _, g := range funcsOf(pkg) {
+		ast.Inspect(g.Decl.Body, func(n ast.Node) bool {
+			as, ok := n.(*ast.AssignStmt)
+			if !ok || len(as.Lhs) != len(as.Rhs) {
+				return true
+			}
+			for i, l := range as.Lhs {
+				lf := fieldOf(info, l)
+				if lf == nil {
+					continue
+				}
+				rhs := stripParens(as.Rhs[i])
+				for {
+					if se, ok := rhs.(*ast.SliceExpr); ok {
+						rhs = stripParens(se.X)
+						continue
+					}
+					break
+				}
+				if rf := fieldOf(info, rhs); rf != nil && rf != lf {
+					group[find(lf)] = find(rf)
+				}
+			}
+			return true
+		})
+	}
+	sig := f.Obj.Type().(*types.Signature)
+	results := map[types.Object]bool{}
+	for i := 0; i < sig.Results().Len(); i++ {
+		results[sig.Results().At(i)] = true
+	}
+	viewOf := func(e ast.Expr) *types.Var {
+		e = stripParens(e)
+		for {
+			if se, ok := e.(*ast.SliceExpr); ok {
+				e = stripParens(se.X)
+				continue
+			}
+			break
+		}
+		if fv := fieldOf(info, e); fv != nil {
+			switch fv.Type().Underlying().(type) {
+			case *types.Slice, *types.Array:
+				return find(fv)
+			}
+		}
+		return nil
+	}
+	n := 0
+	ast.Inspect(f.Decl.Body, func(nd ast.Node) bool {
+		as, ok := nd.(*ast.AssignStmt)
+		if !ok || len(as.Lhs) != len(as.Rhs) {
+			return true
+		}
+		for i, l := range as.Lhs {
+			if !results[objOf(info, l)] {
+				continue
+			}
+			g := viewOf(as.Rhs[i])
+			if g == nil {
+				continue // not a view of a context buffer (parameter data, a copy, nil)
+			}
+			n++
+			// a later write into the same backing array
+			var bad token.Pos
+			ast.Inspect(f.Decl.Body, func(k ast.Node) bool {
+				call, ok := k.(*ast.CallExpr)
+				if !ok || call.Pos() <= as.End() || len(call.Args) < 1 {
+					return true
+				}
+				id, ok := call.Fun.(*ast.Ident)
+				if !ok {
+					return true
+				}
+				if b, isB := info.Uses[id].(*types.Builtin); !isB || (b.Name() != "copy" && b.Name() != "append") {
+					return true
+				}
+				if viewOf(call.Args[0]) == g && !bad.IsValid() {
+					bad = call.Pos()
+				}
+				return true
+			})
+			r.Check("C11.stream-alias", "rules.Context.StreamStringData|"+exprStr(l)+" is not overwritten before it is used", posOr(bad, as.Pos()), !bad.IsValid(),
+				"the result "+exprStr(l)+" is a view of the context buffer `"+exprStr(as.Rhs[i])+"`, and the same call later writes into that buffer: when one data event completes a split character and ends inside the next one, the completed character is overwritten before the caller validates it, so a valid string is rejected (or an invalid one accepted) depending on how the data was split")
+		}
+		return true
+	})
+	r.Count("C11.stream-alias results that are views of context buffers", n)
 }
